@@ -462,14 +462,28 @@ R_Unique_member == AllOf(AllLevels, LAMBDA lv : NoDup(LevelMemberNames(lv.def)))
 R_Unique_element == AllOf(CompositeNodes, LAMBDA n : NoDup(NamesOf(n.e.elements)))
 R_Unique_value == AllOf(EnumNodes, LAMBDA n : NoDup(NamesOf(n.e.values)))
 R_Unique_choice == AllOf(SetNodes, LAMBDA n : NoDup(NamesOf(n.e.choices)))
+\* the values of one enum are pairwise different as VALUES (1 and 01 are one value): two
+\* names for one value cannot be told apart when decoding, and the switch generated for
+\* visit / enum_to_string would have equal case labels (round 4; sbeppc accepted them)
+CanonValue(v) == IF Len(v) >= 2 /\ Ch(v, 1) = "-" /\ IsDigits(SubSeq(v, 2, Len(v)))
+                 THEN (IF StripZeros(SubSeq(v, 2, Len(v))) = "0" THEN "0" ELSE "-" \o StripZeros(SubSeq(v, 2, Len(v))))
+                 ELSE IF Len(v) >= 2 /\ IsDigits(v) THEN StripZeros(v) ELSE v
+R_Unique_valuenum ==
+  AllOf(EnumNodes, LAMBDA n :
+    (IsPrim(n.e.enc) \/ Exists(n.e.enc)) =>
+      NoDup([k \in 1 .. Len(n.e.values) |->
+               IF IsPrim(n.e.enc) /\ n.e.enc = "char" THEN n.e.values[k].value
+               ELSE IF ~IsPrim(n.e.enc) /\ KindOf(n.e.enc) = "type" /\ TypeNamed(n.e.enc).prim = "char" THEN n.e.values[k].value
+               ELSE CanonValue(n.e.values[k].value)]))
 R_Unique == R_Unique_type /\ R_Unique_message /\ R_Unique_member /\ R_Unique_element /\ R_Unique_value /\ R_Unique_choice
+            /\ R_Unique_valuenum
 
 ----------------------------------------------------------------------------
 RuleNames == {"R_RefExists", "R_RefKind.enc", "R_RefKind.header", "R_RefKind.dim", "R_RefKind.data",
               "R_RefKind.valueRef", "R_NoCycle", "R_FieldOffset", "R_ElementOffset", "R_BlockLength", "R_DataLayout",
               "R_ArraySingleByte", "R_ValueFits.min", "R_ValueFits.max", "R_ValueFits.null", "R_ValueFits.const",
               "R_ValueFits.enum", "R_ChoiceIndex", "R_Name", "R_Keyword", "R_Unique.type", "R_Unique.message",
-              "R_Unique.member", "R_Unique.element", "R_Unique.value", "R_Unique.choice"}
+              "R_Unique.member", "R_Unique.element", "R_Unique.value", "R_Unique.choice", "R_Unique.valuenum"}
 HoldsW(r, wf) ==
            CASE r = "R_RefExists" -> R_RefExists
               [] r = "R_RefKind.enc" -> R_RefKind_enc
@@ -497,6 +511,7 @@ HoldsW(r, wf) ==
               [] r = "R_Unique.element" -> R_Unique_element
               [] r = "R_Unique.value" -> R_Unique_value
               [] r = "R_Unique.choice" -> R_Unique_choice
+              [] r = "R_Unique.valuenum" -> R_Unique_valuenum
 Holds(r) == HoldsW(r, WellFormed)
 Broken == LET wf == WellFormed IN {r \in RuleNames : ~HoldsW(r, wf)}
 
